@@ -5,12 +5,14 @@ is undone straight afterwards (git -C /repo checkout -- .).  Nothing else may us
 
     harness/final_pass.py [seeded/C07/m1 ...]      (default: every seeded/C*/[mnpqr]* and seeded/harmless/h*)
 
-Writes the verdict into meta.json under "final" and a summary to .work/final_pass.log.
+Writes the verdict into meta.json under "final" and a summary to .work/final_pass.log; evidence/ is saved before and
+restored afterwards (the runs in between describe changed trees).
 """
 import glob
 import json
 import os
 import re
+import shutil
 import subprocess
 import sys
 
@@ -48,6 +50,21 @@ def main():
     rc, out = sh("git -C /repo status --porcelain --untracked-files=no")
     assert out.strip() == "", "/repo has local changes: " + out
     log = open(os.path.join(VERIF, ".work", "final_pass.log"), "a")
+    # the checks run against /repo and therefore rewrite evidence/ with runs on a CHANGED tree: keep the clean-tree files
+    backup = os.path.join(VERIF, ".work", "evidence-before-final-pass")
+    shutil.rmtree(backup, ignore_errors=True)
+    shutil.copytree(os.path.join(VERIF, "evidence"), backup)
+    try:
+        run_all(dirs, log)
+    finally:
+        sh("git -C /repo checkout -- .")
+        for f in os.listdir(backup):
+            shutil.copy2(os.path.join(backup, f), os.path.join(VERIF, "evidence", f))
+    rc, out = sh("git -C /repo status --porcelain --untracked-files=no")
+    assert out.strip() == "", "/repo left dirty: " + out
+
+
+def run_all(dirs, log):
     for d in dirs:
         d = os.path.abspath(d)
         key = "/".join(d.split("/")[-2:])
@@ -93,8 +110,6 @@ def main():
         print(line, flush=True)
         log.write(line + "\n")
         log.flush()
-    rc, out = sh("git -C /repo status --porcelain --untracked-files=no")
-    assert out.strip() == "", "/repo left dirty: " + out
 
 
 if __name__ == "__main__":
